@@ -325,5 +325,7 @@ func (b *blockBuilder) Build() *Block {
 		checks:  checks,
 		context: b.context,
 		version: MaxSchemaVersion,
+
+		symbolsBase: b.symbolsStart + 1,
 	}
 }
